@@ -404,8 +404,8 @@ Carrier: the branches of `Spec/Born` (`(unnormalised state, register word)`).  `
 NOT proved: (1) that the parsed program of the exported TEXT is this value-level statement list (needs the exact parse
 results and a number round trip `S.angle (parse (N.disp x)) = x`; `cq_wellformed_partial` gives parsing and
 well-formedness only); (2) [closed: `cq_equiv_partial` below folds the operations] (3) [closed for `CZ Swap CS CT CY CCX CCZ CU1` (exact, `exactAll`) and `V Vdg U1 CU3` (up to a phase,
-`cq_equiv_phase_partial`)]; still open: `CSdg CTdg` (decimal literals), conditional phase gates, `measure_all`, `Kron`,
-`Composite`, unconditioned `Loop`.  All of these are checked by (B) on every run. -/
+`cq_equiv_phase_partial`)]; `Kron` bundles, `Composite`, unconditioned `Loop` closed by `cq_equiv_term_partial`; still open: `CSdg CTdg` (decimal
+literals), conditional gates other than one-line exact ones, `measure_all`.  All of these are checked by (B) on every run. -/
 
 section equiv
 variable {α P : Type} [CommRing α] [Amp α P]
@@ -487,6 +487,54 @@ theorem cq_equiv_phase_partial (h : LawfulAmp α P) (hh : Proofs.Unitaries.Lawfu
     ∃ r2, Spec.branches n nz (steps.map (·.2.2)) (CQ1.initial n) = some r2 ∧
       List.Forall₂ (PhRel P n nz) (dSeq n nz (steps.flatMap (·.2.1)) (CQ1.initial n)) r2 :=
   circuit_equiv_phase h hh hn hq n hn64 nz hs hnz0 steps hst
+
+
+/-- **cq_equiv_partial with bundles, composites and loops**: the class `FaithfulOpT` additionally contains every gate
+operation whose term satisfies `termOK` — library gates of `exactAll` / `phaseGates` with direct parameters, a `Kron`
+of two one-line library gates (exported as a bundle `{ a | b }`: the parts one after the other, on disjoint qubits),
+composites with valid sub-placements (any nesting), and loops that are not inside a loop (the body `iters` times,
+which is what the sub-circuit `.label(iters)` means) — on a valid placement.  `gateLinesN` follows the exporter's
+recursion; `term_act` (mutual induction over gates and sub-op lists; `embed_kron` + commutation of disjoint
+placements, `embed_compose`, `embed_mul`, powers) shows its lines act as `c ·` the embedded documented unitary. -/
+theorem cq_equiv_term_partial (h : LawfulAmp α P) (hh : Proofs.Unitaries.LawfulHalf α P) (hn : LawfulNegHalf α P)
+    (hq : LawfulQuarter α P) (n : Nat) (hn64 : n ≤ 64) (nz : List α → Bool) (hs : NzScale P nz)
+    (hnz0 : nz ((List.range (2 ^ n)).map fun i => if i = 0 then (1 : α) else 0) = true)
+    (steps : List (XOp P × List (DStmt α) × Sim.COp P)) (hst : ∀ s ∈ steps, FaithfulOpT n nz s.1 s.2.1 s.2.2) :
+    ∃ r2, Spec.branches n nz (steps.map (·.2.2)) (CQ1.initial n) = some r2 ∧
+      List.Forall₂ (PhRel P n nz) (dSeq n nz (steps.flatMap (·.2.1)) (CQ1.initial n)) r2 :=
+  circuit_equiv_term h hh hn hq n hn64 nz hs hnz0 steps hst
+
+/-- every gate term of the class, on every valid placement, has its statements and its `GateTerm` -/
+theorem cq_equiv_term_total (h : LawfulAmp α P) (hh : Proofs.Unitaries.LawfulHalf α P) (hn : LawfulNegHalf α P)
+    (hq : LawfulQuarter α P) (n : Nat) (nz : List α → Bool) (g : XGate P) (hok : termOK false g = true)
+    (bits : List Nat) (hl : bits.length = nrBits g) (hv : Spec.validBits n bits = true)
+    (hkept : ∀ term : GateTerm P, NzKept n nz term bits) : ∃ D cop, FaithfulOpT n nz (.gate g bits) D cop :=
+  faithful_term h hh hn hq n nz g hok bits hl hv hkept
+
+/-- non-vacuity over ℂ: a loop around a bundle on swapped qubits and a composite, then `V` (phase), then `measure_x` -/
+example := AmpComplex.equiv_example_term
+
+
+/-! ### text ↔ values: first pieces (the rest is NOT proved)
+
+`ReadsBack N S val` is the named hypothesis about the number printer / reader (extends `GoodNum`): reading back a printed
+number gives its value, an evaluated hole of a good template evaluates to a number whose value is the value-level
+reading of the hole (`holeVal`), and `crk 1`, `crk 2` are the phases `i`, `e^{iπ/4}`.  Proved so far: a parsed gate
+instruction whose matrix `Spec/CQ1` determines IS the value-level statement `gate ctrl qubits M`
+(`cq_instr_is_value_line`), and `Spec/CQ1.gateMatrix` on literals that read back as the values agrees with the
+value-level table (`cq_gateMatrix_of_values`).  Missing: the exact parse result of every exported line (the
+well-formedness proof only shows existence), its assembly into `parseProgram`'s sub-circuit structure, and hence
+`programSem (parse (exportText c)) = dSeq (denotation c)` under `ReadsBack`. -/
+
+theorem cq_instr_is_value_line (S : CQ1.NumSem α P) (n : Nat) (nz : List α → Bool) (i : CQ1.Instr) (M : LMat α)
+    (hg : CQ1.isGate i.name = true) (hM : CQ1.gateMatrix S i.name (CQ1.numArgs i.args) = some M)
+    (br : CQ1.Branch α) :
+    CQ1.instrSem S n nz i br = some (dSem n nz (.gate i.ctrl (i.qubits n) M) br) := instrSem_gate S n nz i M hg hM br
+
+theorem cq_gateMatrix_of_values (S : CQ1.NumSem α P) (name : String) (nums : List CQ1.NumLit) (vals : List (NVal P))
+    (M : LMat α) (hM : gateMatrixV (α := α) name.toList vals = some M)
+    (hden : List.Forall₂ (NumDenotes S) nums vals) : CQ1.gateMatrix S name nums = some M :=
+  gateMatrix_of_values S name nums vals M hM hden
 
 /-- the exact class: 25 gates; the phase class: 4 more -/
 example : exactAll.length = 25 ∧ phaseGates = ["V", "Vdg", "U1", "CU3"] := by decide
